@@ -14,7 +14,7 @@ func SpecFor(prop, tier string) MassSpec {
 	switch prop {
 	case "C01":
 		if thorough {
-			return MassSpec{Deviations: 1, Thorough: true, ExtraOps: CorpusOps(), Gens: []GenCfg{
+			return MassSpec{Deviations: 1, Thorough: true, ExtraOps: CorpusOps(), ExtraCases: MirrorCases(), Gens: []GenCfg{
 				{Root: "Query", Fields: fieldsFor("core"), Conds: ProbeConds, MaxNodes: 3, Spreads: true, Dev: 2},
 				{Root: "Query", Fields: fieldsFor("wide"), Conds: ProbeConds, MaxNodes: 4, Spreads: true, DirVariants: dirVariants},
 				{Root: "Query", Fields: fieldsFor("core"), Conds: ProbeConds, MaxNodes: 4, Aliases: true, Spreads: true},
@@ -22,7 +22,7 @@ func SpecFor(prop, tier string) MassSpec {
 				{Root: "Query", Fields: fieldsFor("core"), Conds: ProbeConds, MaxNodes: 5, Spreads: true},
 			}}
 		}
-		return MassSpec{Deviations: 1, ExtraOps: CorpusOps(), Gens: []GenCfg{
+		return MassSpec{Deviations: 1, ExtraOps: CorpusOps(), ExtraCases: MirrorCases(), Gens: []GenCfg{
 			{Root: "Query", Fields: fieldsFor("wide"), Conds: ProbeConds, MaxNodes: 3, Aliases: true, Spreads: true},
 			{Root: "Query", Fields: fieldsFor("core"), Conds: ProbeConds, MaxNodes: 3, Aliases: true, Spreads: true, DirVariants: dirVariantsQuick},
 			{Root: "Mutation", Fields: fieldsFor("core"), Conds: ProbeConds, MaxNodes: 3, Aliases: true},
@@ -30,14 +30,14 @@ func SpecFor(prop, tier string) MassSpec {
 		}}
 	case "C04":
 		if thorough {
-			return MassSpec{Deviations: 1, WithPanic: true, Intercept: true, ExtraOps: append(CorpusOps(), FaultOps()...), Gens: []GenCfg{
+			return MassSpec{Deviations: 1, WithPanic: true, Intercept: true, ExtraCases: MirrorCases(), ExtraOps: append(CorpusOps(), FaultOps()...), Gens: []GenCfg{
 				{Root: "Query", Fields: fieldsFor("core"), Conds: ProbeConds, MaxNodes: 4, Spreads: true},
 				{Root: "Query", Fields: fieldsFor("wide"), Conds: ProbeConds, MaxNodes: 3, Aliases: true},
 				{Root: "Mutation", Fields: fieldsFor("core"), Conds: ProbeConds, MaxNodes: 4},
 				{Root: "Query", Fields: fieldsFor("core"), Conds: ProbeConds, MaxNodes: 3, Dev: 2},
 			}}
 		}
-		return MassSpec{Deviations: 1, WithPanic: true, Intercept: true, ExtraOps: append(CorpusOps(), FaultOps()...), Gens: []GenCfg{
+		return MassSpec{Deviations: 1, WithPanic: true, Intercept: true, ExtraCases: MirrorCases(), ExtraOps: append(CorpusOps(), FaultOps()...), Gens: []GenCfg{
 			{Root: "Query", Fields: fieldsFor("core"), Conds: ProbeConds, MaxNodes: 4},
 			{Root: "Query", Fields: fieldsFor("wide"), Conds: ProbeConds, MaxNodes: 3},
 			{Root: "Mutation", Fields: fieldsFor("core"), Conds: ProbeConds, MaxNodes: 3},
@@ -70,6 +70,22 @@ func CorpusOps() []Op {
 	}
 	out = append(out, Op{Text: `mutation{m1{id name} m2{req kid{id}} m3}`})
 	return out
+}
+
+// MirrorCases: two deviations at positions whose response paths differ only in one
+// element (aliases of one field): an error at one, a silent null / second error at the other.
+func MirrorCases() []Case {
+	c := func(q string, kv ...string) Case { return Case{Op: Op{Text: q}, Plan: planOf(kv...)} }
+	return []Case{
+		c(`{x:t{kidReq{id}} y:t{kidReq{id}}}`, "x.kidReq", "error", "y.kidReq", "null"),
+		c(`{x:t{kidReq{id}} y:t{kidReq{id}}}`, "y.kidReq", "error", "x.kidReq", "null"),
+		c(`{x:tReq{id} y:tReq{id}}`, "x", "error", "y", "null"),
+		c(`{t{x:kidReq{id} y:kidReq{id}}}`, "t.x", "error", "t.y", "null"),
+		c(`{t{kids{x:kidReq{id}}} ts{kids{x:kidReq{id}}}}`, "t.kids[0].x", "error", "ts[0].kids[0].x", "null"),
+		c(`{ts{x:peerReq{id}}}`, "ts[0].x", "error", "ts[1].x", "null"),
+		c(`{x:t{req} y:t{req}}`, "x.req", "error", "y.req", "error"),
+		c(`{t{times} ts{times}}`, "t.times[0]", "null", "ts[0].times[0]", "null"),
+	}
 }
 
 // FaultOps: operations that put the custom-scalar marshaler / unmarshaler on a path.
